@@ -27,7 +27,7 @@ VT(e) ==
     IN  IF ~(OutcomeOK(e.kind) \/ Truncated(e.kind)) THEN "escaping_exception"
         ELSE IF ~TypeOK(from) \/ ~Consistent(from) THEN "harness_state_outside_model"
         ELSE IF ~e.established THEN "state_not_established"
-        ELSE IF e.kind = "ok" /\ EffectChecked(from, it) /\ Has(e, "post") /\ StOf(e.post) # Effect(from, it)
+        ELSE IF e.kind = "ok" /\ EffectChecked(from, it) /\ Has(e, "post") /\ ~EffectOK(from, it, StOf(e.post))
              THEN "effect_differs_from_model"
         ELSE "ok"
 
